@@ -61,7 +61,7 @@ func (eng *Engine) resolveTargets(cfg *PropConfig) ([]targetFn, []string) {
 			n := 0
 			for _, k := range eng.sortedKeys() {
 				fn := eng.fnByKey[k]
-				if re.MatchString(k) && len(fn.Blocks) > 0 && (eng.inRepo(fn) || t.Dep && eng.inRepoOrUio(fn)) && (ex == nil || !ex.MatchString(k)) && (t.Ghost || !eng.isVerifFn(fn)) {
+				if re.MatchString(k) && len(fn.Blocks) > 0 && (eng.inRepo(fn) || t.Dep && (eng.inRepoOrUio(fn) || eng.contracts[k] != nil)) && (ex == nil || !ex.MatchString(k)) && (t.Ghost || !eng.isVerifFn(fn)) {
 					add(fn, m, t.Note)
 					n++
 				}
